@@ -130,6 +130,45 @@ class ScriptedArchMethod:
         self.mm.get_architecture_mut_method = self.orig
 
 
+def new_coords(old, new):
+    """indices (in the new layout) of the output-layer parameters that did not exist in the old layer"""
+    o = dict(map(tuple, old))
+    out, i = [], 0
+    for k, n in new:
+        if k in o:
+            if n > o[k]:
+                out += list(range(i + o[k], i + n))
+        else:
+            out += list(range(i, i + n))
+        i += n
+    return out
+
+
+def expected_resize(old, new, S, dval):
+    """what a resize must produce: entries of retained parameters carried to their new positions, 1/lambda on the diagonal of
+    new coordinates, zeros elsewhere"""
+    o, n_new = dict(map(tuple, old)), sum(n for _, n in new)
+    start_old, i = {}, 0
+    for k, n in old:
+        start_old[k] = i
+        i += n
+    src, i = [None] * n_new, 0
+    for k, n in new:
+        if k in o:
+            for t in range(min(n, o[k])):
+                src[i + t] = start_old[k] + t
+        i += n
+    S = np.asarray(S, dtype=np.float64)
+    E = np.zeros((n_new, n_new))
+    for a in range(n_new):
+        for b in range(n_new):
+            if src[a] is not None and src[b] is not None:
+                E[a, b] = S[src[a], src[b]]
+            elif a == b and src[a] is None:
+                E[a, b] = dval
+    return E
+
+
 def op_kind(op, rec, lam):
     """how an op of a history acts on the confidence matrix, judged from what was observed:
     'hook'   — a mutation after which sigma_inv IS the freshly initialised eye/lambda (the init_params hook ran);
@@ -774,11 +813,9 @@ class C19(vlib.Driver):
         if case["kind"] == "resize":
             dval = 1.0 / case["lam"]
             # which variant of the diagonal fill does this tree exhibit? (judged by the oracle, not by K)
-            w_old = dict(map(tuple, obs["old"])).get(0, 0)
-            w_new = dict(map(tuple, obs["new"])).get(0, 0)
-            same_bias = dict(map(tuple, obs["old"])).get(1) == dict(map(tuple, obs["new"])).get(1)
-            shifted = all(obs["M"][i][i] != 0 for i in range(w_old, min(w_new, len(obs["M"])))) \
-                if (w_new > w_old and same_bias) else True
+            nc = [i for i in new_coords(obs["old"], obs["new"]) if i < len(obs["M"])]
+            same_keys = {k for k, _ in obs["old"]} == {k for k, _ in obs["new"]}
+            shifted = all(obs["M"][i][i] != 0 for i in nc) if same_keys else True
             return (f"check_resize {vlib.coq_bool(shifted)} {self.q_layer(obs['old'])} {self.q_layer(obs['new'])} {coq_Q(dval)} "
                     f"{self.q_mat(obs['S'])} {self.q_mat(obs['M'])}")
         ops, obl = [], []
@@ -855,19 +892,18 @@ class C19(vlib.Driver):
             if not np.array_equal(M, M.T):
                 V("symmetric", "resized matrix is not symmetric", "resize")
             n_old = sum(n for _, n in obs["old"])
-            same_bias = dict(map(tuple, obs["old"])).get(1) == dict(map(tuple, obs["new"])).get(1)
-            if n_new > n_old and same_bias:
+            newidx = new_coords(obs["old"], obs["new"])
+            same_keys = {k for k, _ in obs["old"]} == {k for k, _ in obs["new"]}
+            if newidx and same_keys:
                 # the coordinates that did not exist before carry the initial value 1/lambda on the diagonal
-                w_old = dict(map(tuple, obs["old"])).get(0, 0)
-                w_new = dict(map(tuple, obs["new"])).get(0, 0)
-                newidx = list(range(w_old, w_new))
                 diag = [M[i, i] for i in newidx]
                 if any(abs(d - 1.0 / lam) > 1e-6 for d in diag):
-                    k = len(newidx)
                     V("resize-new-diagonal",
-                      f"output layer grown by {k} parameters (lambda={lam}): new diagonal entries {diag}, expected {1.0 / lam} each"
-                      " (a zero diagonal entry makes the confidence matrix singular)",
+                      f"output layer {obs['old']} -> {obs['new']} (lambda={lam}): diagonal entries of the new coordinates {newidx} are {diag}, "
+                      f"expected {1.0 / lam} each (a zero diagonal entry makes the confidence matrix singular)",
                       "wrong-value" if all(d != 0 for d in diag) else "missing")
+            # hand-made layers whose parameter SET changes (no network of the library builds them — extra_static fails closed
+            # if that ever stops being true) are outside the property: compared with the model by K only
             return out
 
         def check_size(rec, where):
